@@ -2650,3 +2650,12 @@ EB_API EbErrorType svt_get_sequence_info(const uint8_t *obu_data, size_t size,
     } while (status == EB_ErrorNone && frame_sz > 0);
     return EB_ErrorUndefined;
 }
+
+#ifdef SVT_AV1_VERIF
+/* verification hook H7: exported one-line wrapper around this unit's static
+ * order-hint distance helper (white-box harness /verif/harness/reldist.c). */
+int svt_verif_get_relative_dist_decoder(OrderHintInfo *oh, int a, int b);
+int svt_verif_get_relative_dist_decoder(OrderHintInfo *oh, int a, int b) {
+    return get_relative_dist(oh, a, b);
+}
+#endif /* SVT_AV1_VERIF */
